@@ -8,8 +8,8 @@
 
    Guards are the exact complements of the refuted classes; each refuted class has its `_refuted` witness
    (known_findings.tsv: squeeze-singleton, Image2D.fun2par|batch, StepExpansion float boundaries). *)
-From CV Require Import Base.Tac Base.Cmp Base.LinAlg Base.QcLin Model.C13_Geom Model.C13_Float Model.C13_Eq
-     Proofs.C13_Lists Proofs.C13_Index Proofs.C13_Geom Proofs.C13_Step Proofs.C13_StepQ Proofs.C13_All Proofs.C13_FloatW Proofs.C13_Vector Proofs.C13_KLW Proofs.C13_MatMap Proofs.C13_Fun2par Proofs.C13_Eq.
+From CV Require Import Base.Tac Base.Cmp Base.LinAlg Base.QcLin Model.C13_Geom Model.C13_Float Model.C13_Eq Model.C13_Fixed
+     Proofs.C13_Lists Proofs.C13_Index Proofs.C13_Geom Proofs.C13_Step Proofs.C13_StepQ Proofs.C13_All Proofs.C13_FloatW Proofs.C13_Vector Proofs.C13_KLW Proofs.C13_MatMap Proofs.C13_Fun2par Proofs.C13_Eq Proofs.C13_Fixed Proofs.C13_Colwise Proofs.C13_History.
 From Coq Require Import QArith Qcanon.
 From Coq Require PrimFloat.   (* not imported: Print Assumptions then shows the primitives with their full names *)
 
@@ -265,6 +265,18 @@ Theorem C13_batch_columnwise_mapped_matrix : forall (g : geom) (M : list (list Q
 Proof. exact mappedlin_columnwise. Qed.
 Print Assumptions C13_batch_columnwise_mapped_matrix.
 
+(* the column-wise clause as ONE theorem, by induction over the geometry constructors: every geometry with vector-valued
+   functions (Continuous1D, Discrete, KLExpansion, StepExpansion, MappedGeometry with an elementwise or a matrix map over
+   any of these, nested to any depth): member j of par2fun(batch) is par2fun(column j) *)
+Theorem C13_batch_columnwise : forall (g : geom), g_is1d g -> g_shape_ok g -> forall k (a : arr Qc), (k <> 1)%nat ->
+  shp a = [g_par_dim g; k] -> length (dat a) = (g_par_dim g * k)%nat ->
+  exists b, g_par2fun g a = Some b /\ shp b = [fdim g; k] /\ length (dat b) = (fdim g * k)%nat /\
+    forall j, (j < k)%nat ->
+      g_par2fun g (mkArr [g_par_dim g] (col_of 0%Qc (g_par_dim g) k j (dat a)))
+      = Some (mkArr [fdim g] (col_of 0%Qc (fdim g) k j (dat b))).
+Proof. exact g_par2fun_columnwise. Qed.
+Print Assumptions C13_batch_columnwise.
+
 (* ============ reported shapes ============ *)
 (* par2fun of an array of the reported par_shape succeeds and has the reported fun_shape (declared, or for
    MappedGeometry inferred from par2fun(ones)); par_dim = prod par_shape by definition of the model *)
@@ -431,6 +443,70 @@ Theorem C13_eq_cache_refuted : exists d c, NoDup (map fst ((7%nat, PS SNone) :: 
   geom_eq false true ((7%nat, PS (SArr c)) :: d) ((7%nat, PS SNone) :: d) = false.
 Proof. exact geom_eq_cache_refuted. Qed.
 Print Assumptions C13_eq_cache_refuted.
+
+(* ============ the flagged model (Model/C13_Fixed.v) that the generated cases evaluate ============ *)
+(* with both proposed repairs switched off it is exactly the model the theorems above are about *)
+Theorem C13_flagged_model_off :
+  (forall g a, g_par2fun_m false g a = g_par2fun g a) /\ (forall g a, g_fun2par_m false false g a = g_fun2par g a) /\
+  (forall exact m g x obs, check_map_m false false exact m g x obs = check_map exact m g x obs) /\
+  (forall g a b c d e, check_shapes_m false false g a b c d e = check_shapes g a b c d e) /\
+  (forall exact ops g S obs, check_samples_m false false exact ops g S obs = check_samples exact ops g S obs) /\
+  (forall exact tp g a ip obs, check_cuqiarray_m false false exact tp g a ip obs = check_cuqiarray exact tp g a ip obs).
+Proof. split; [exact g_par2fun_m_off|]. split; [exact g_fun2par_m_off|]. exact checkers_off. Qed.
+Print Assumptions C13_flagged_model_off.
+
+(* with fixes/C13_squeeze_batch_axis.diff (sq = true) the round trips and shapes hold WITHOUT the singleton guards:
+   Continuous2D on every grid with at least one node (1 x n, n x 1, 1 x 1 included) ... *)
+Theorem C13_roundtrip_continuous2d_repaired : forall (n1 n2 k : nat) (a : arr Qc), (1 <= n1 * n2)%nat -> shp a = vb_shape (n1 * n2) k ->
+  obind (cont2d_par2fun_m true n1 n2 a) (cont2d_fun2par_m true n1 n2) = Some a.
+Proof. exact cont2d_roundtrip_fx. Qed.
+Print Assumptions C13_roundtrip_continuous2d_repaired.
+
+Theorem C13_shapes_continuous2d_repaired : forall (n1 n2 k : nat) (a : arr Qc), (1 <= n1 * n2)%nat -> shp a = vb_shape (n1 * n2) k ->
+  cont2d_par2fun_m true n1 n2 a = Some (mkArr (if (k =? 1)%nat then [n1; n2] else [n1; n2; k]) (dat a)).
+Proof. exact cont2d_par2fun_shape_fx. Qed.
+Print Assumptions C13_shapes_continuous2d_repaired.
+
+(* ... KLExpansion with any 1 <= m <= N modes (a single mode, a one-node grid) ... *)
+Theorem C13_roundtrip_kl_repaired : forall (dst idst : list Qc -> list Qc) (N m : nat) (coefs : list Qc) (tau : Qc) (k : nat) (a : arr Qc),
+  (forall x, length x = N -> length (idst x) = N) ->
+  (forall x, length x = N -> dst (idst x) = map (fun v => qcn 2 * qcn N * v)%Qc x) ->
+  (1 <= m)%nat -> (m <= N)%nat -> length coefs = m -> Forall (fun c => c <> 0%Qc) coefs -> tau <> 0%Qc ->
+  shp a = vb_shape m k -> length (dat a) = (m * k)%nat ->
+  obind (kl_par2fun_m true idst N m coefs tau a) (kl_fun2par_m true dst N m coefs tau) = Some a.
+Proof. exact kl_roundtrip_fx. Qed.
+Print Assumptions C13_roundtrip_kl_repaired.
+
+(* ... StepExpansion on any partition into non-empty steps (a single step, any number of nodes) *)
+Theorem C13_roundtrip_step_repaired : forall (N : nat) (idx : list (list nat)) (pr : proj) (k : nat) (a : arr Qc), step_wf N idx ->
+  shp a = vb_shape (length idx) k -> length (dat a) = (length idx * k)%nat ->
+  obind (step_par2fun_m true N idx a)
+        (fun b => obind (step_fun2par_m true N idx pr b) (fun r => option_map (mkArr (shp r)) (all_some (dat r)))) = Some a.
+Proof. exact step_roundtrip_fx. Qed.
+Print Assumptions C13_roundtrip_step_repaired.
+
+(* with fixes/C13_image2d_fun2par_batch.diff (im = true) Image2D.fun2par of a batch of k >= 2 images has shape (r*c, k),
+   par2fun gives the batch back, and column j is fun2par of image j (both orders) *)
+Theorem C13_batch_columnwise_image2d_fun2par_repaired : forall (r c : nat) (o : C13_Geom.order) (k : nat) (a : arr Qc),
+  (0 < r * c)%nat -> (2 <= k)%nat -> shp a = [r; c; k] -> length (dat a) = (r * c * k)%nat ->
+  exists b, image_fun2par_m true r c o false a = Some b /\ shp b = [(r * c)%nat; k] /\ length (dat b) = (r * c * k)%nat /\
+    image_par2fun 0%Qc r c o false b = Some a /\
+    forall j, (j < k)%nat ->
+      image_fun2par 0%Qc o false (mkArr [r; c] (col_of 0%Qc (r * c) k j (dat a)))
+      = Some (mkArr [(r * c)%nat] (col_of 0%Qc (r * c) k j (dat b))).
+Proof. exact image_fun2par_fx_columnwise. Qed.
+Print Assumptions C13_batch_columnwise_image2d_fun2par_repaired.
+
+(* ============ histories: object reuse after attribute re-assignment ============ *)
+(* StepExpansion computes its index sets once, in __init__: after `grid` is replaced by a longer one, the old index sets
+   give a different step function than a StepExpansion built on the new grid, and the last nodes receive no parameter *)
+Theorem C13_step_stale_indices_refuted : exists (N_old N_new n : nat) (p : list Qc),
+  (N_old < N_new)%nat /\ length p = n /\
+  step_wf N_old (step_indices_ideal N_old n) /\ step_wf N_new (step_indices_ideal N_new n) /\
+  step_par2fun_col N_new (step_indices_ideal N_old n) p <> step_par2fun_col N_new (step_indices_ideal N_new n) p /\
+  nth (N_new - 1) (step_par2fun_col N_new (step_indices_ideal N_old n) p) 0%Qc = 0%Qc.
+Proof. exact step_stale_indices_refuted. Qed.
+Print Assumptions C13_step_stale_indices_refuted.
 
 (* non-vacuity: a nested mapped Continuous2D, an Image2D in Fortran order and a StepExpansion on the bit-exact
    binary64 indices of linspace(0,1,7) with 3 steps satisfy the guards; the last one's indices pass the test *)
